@@ -25,6 +25,8 @@ class NtTriplesYielder(BaseTriplesYielder):
     def yield_triples(self):
         self._reset_count()
         for a_line in self._line_reader.read_lines():
+            if a_line.strip() == "" or a_line.strip().startswith("#"):  # Blank line or comment. Nothing to parse, no error
+                continue
             tokens = self._look_for_tokens(a_line.strip())
             if len(tokens) != 3:
                 self._error_triples += 1
